@@ -105,10 +105,19 @@ func VerifC08NodeSort() {
 		{Name: "f", File: "x.go", Lineno: 2},
 		{Name: "g", File: "x.go", Lineno: 1, Address: 16},
 	}
-	if vChoice("twins", 2) == 1 {
-		// nodes that print alike and differ only in the start line
+	switch vChoice("twins", 5) {
+	case 1: // nodes that print alike and differ only in the start line
 		infos[0] = NodeInfo{Name: "f", File: "x.go", StartLine: 10}
 		infos[1] = NodeInfo{Name: "f", File: "x.go", StartLine: 40}
+	case 2: // ... only in the binary
+		infos[0] = NodeInfo{Name: "f", File: "x.go", Lineno: 3, Objfile: "/bin/a"}
+		infos[1] = NodeInfo{Name: "f", File: "x.go", Lineno: 3, Objfile: "/bin/b"}
+	case 3: // ... only in the original (mangled) name
+		infos[0] = NodeInfo{Name: "f", OrigName: "_Z1fi", File: "x.go"}
+		infos[1] = NodeInfo{Name: "f", OrigName: "_Z1fd", File: "x.go"}
+	case 4: // ... only in the column
+		infos[0] = NodeInfo{Name: "f", File: "x.go", Lineno: 3, Columnno: 1}
+		infos[1] = NodeInfo{Name: "f", File: "x.go", Lineno: 3, Columnno: 9}
 	}
 	ns := make([]*Node, k)
 	for i := 0; i < k; i++ {
